@@ -68,6 +68,8 @@ open C03 in
 * `wire <v> <sc> <nh> <bodies>` → same for explicit marshalled rpc bodies
 * `decode <v> <wire>` → `none` | `some <hello> <msgs>` (strict RFC decoder on observed bytes)
 * `body <id> <hex>` → `1 <inner>` if the bytes are `rpcBody id inner`, else `0 -`
+* `embed subtree <filter>` / `embed edit <target> <config>` → the marshalled element that carries the
+  caller's fragment (model of the `,innerxml` embedding)
 * `msgid <hex>` → message-id read back by `msgIdOf` (`-` if none)
 -/
 def handleC03 : List String → String
@@ -125,6 +127,14 @@ def handleC03 : List String → String
       match stripRpc id b with
       | some inner => s!"1 {toHex inner}"
       | none => "0 -"
+    | _, _ => "bad-op"
+  | ["embed", "subtree", h] =>
+    match fromHex h with
+    | some f => toHex (subtreeFilterElem f)
+    | none => "bad-op"
+  | ["embed", "edit", t, h] =>
+    match fromHex t, fromHex h with
+    | some t, some c => toHex (editConfigElem t c)
     | _, _ => "bad-op"
   | ["msgid", h] =>
     match fromHex h with
